@@ -282,6 +282,7 @@ class Kernel:
         self.current_proc = None
         self.threads = []
         self.ext = self._new_rec(None, None, None, label="external")
+        self.admin = self._new_rec(None, None, None, label="admin")  # sender of system notices; whatever is sent to it is lost
         self.deliveries = []  # (vt, receiver label, msg class, sender label)
         self.fingerprint = []
         self.observers = []  # callables(kernel, rec, msg, sender) -> None | "drop"
@@ -370,19 +371,19 @@ class Kernel:
                 # Thespian tells a new listener about the systems that are already registered
                 for s in self.systems[1:]:
                     if s.joined:
-                        self._post_delivery(self.ext, rec, ta.ActorSystemConventionUpdate(Address(-1, s.name), dict(s.capabilities), True), system_msg=True)
+                        self._post_delivery(self.admin, rec, ta.ActorSystemConventionUpdate(Address(-1, s.name), dict(s.capabilities), True), system_msg=True)
         elif rec in self.listeners:
             self.listeners.remove(rec)
 
     def system_joins(self, system):
         system.joined = True
         for rec in list(self.listeners):
-            self._post_delivery(self.ext, rec, ta.ActorSystemConventionUpdate(Address(-1, system.name), dict(system.capabilities), True), system_msg=True)
+            self._post_delivery(self.admin, rec, ta.ActorSystemConventionUpdate(Address(-1, system.name), dict(system.capabilities), True), system_msg=True)
 
     def system_leaves(self, system):
         system.joined = False
         for rec in list(self.listeners):
-            self._post_delivery(self.ext, rec, ta.ActorSystemConventionUpdate(Address(-1, system.name), dict(system.capabilities), False), system_msg=True)
+            self._post_delivery(self.admin, rec, ta.ActorSystemConventionUpdate(Address(-1, system.name), dict(system.capabilities), False), system_msg=True)
         for rec in list(self.recs.values()):
             if rec.system is system and not rec.dead:
                 self.kill(rec.addr)
@@ -443,6 +444,13 @@ class Kernel:
             ev = self.heap[0]
             if t_min is not None and ev[0] > t_min + self.epsilon:
                 break
+            if ev[2] == "call":
+                # harness actions (topology changes, fault injection) are not messages: they happen exactly in time order
+                if window:
+                    break
+                for sk in skipped:
+                    heapq.heappush(self.heap, sk)
+                return heapq.heappop(self.heap)
             ev = heapq.heappop(self.heap)
             if blocked is not None and ev[2] == "deliver" and ev[3][0] is blocked:
                 skipped.append(ev)
@@ -536,7 +544,7 @@ class Kernel:
             if ob(self, rec, msg, sender) == "drop":
                 return
         self.deliver_count += 1
-        housekeeping = isinstance(msg, ta.WakeupMessage) and rec.cls.__name__ == "DriverActor"
+        housekeeping = isinstance(msg, ta.WakeupMessage) and rec.cls.__name__ in ("DriverActor", "NodeMechanicActor")  # 1 s tick / 30 s metrics flush
         if not housekeeping:
             self.last_progress = self.clock.now
         self.deliveries.append((self.clock.now, rec.addr.label, cls_name, sender.label))
